@@ -83,13 +83,29 @@ def prop_theorems(prop: str) -> list[str]:
     return re.findall(rf"^\s*theorem\s+({prop}_\w+)", src, re.M)
 
 
+def import_closure(module: str) -> list[Path]:
+    """project files the module depends on (transitively), found by reading `import` lines"""
+    seen: dict[str, Path] = {}
+    todo = [module]
+    while todo:
+        mod = todo.pop()
+        if mod in seen:
+            continue
+        f = LEAN / (mod.replace(".", "/") + ".lean")
+        if not f.exists():
+            continue
+        seen[mod] = f
+        for m in re.finditer(r"^import\s+(\S+)", strip_comments(f.read_text()), re.M):
+            if m.group(1).startswith(("AnyioModel", "Driver")):
+                todo.append(m.group(1))
+    return sorted(seen.values())
+
+
 def audit(prop: str) -> dict[str, Any]:
     """grep for forbidden constructs in all of lean/, then #print axioms for the property's
     theorems."""
     problems: list[str] = []
-    for f in sorted(LEAN.rglob("*.lean")):
-        if ".lake" in f.parts:
-            continue
+    for f in import_closure(f"AnyioModel.Props.{prop}"):
         m = FORBIDDEN.search(strip_comments(f.read_text()))
         if m:
             problems.append(f"{f.relative_to(LEAN)}: forbidden construct {m.group(0).strip()!r}")
